@@ -171,7 +171,8 @@ fn weave(r: &mut StdRng, digests: &[String], d: u32) -> Value {
 pub fn run(ctx: &mut Ctx, out_path: &str, n: usize, seed: u64) {
     let mut r = StdRng::seed_from_u64(seed);
     let mut f = Fz { ctx, inflight: format!("{}.inflight", out_path), calls: 0 };
-    let tree = TreeOpts::full(4);
+    let mut tree = TreeOpts::full(4);
+    tree.wide = false; // (thousands of mutants per claim set: see TreeOpts::wide)
     for round in 0..n {
         f.ctx.reset("fuzz", &format!("round={}", round));
         // ---- A: garbage
